@@ -5,6 +5,10 @@ let negb = function
 | true -> false
 | false -> true
 
+type nat =
+| O
+| S of nat
+
 (** val fst : ('a1 * 'a2) -> 'a1 **)
 
 let fst = function
@@ -14,6 +18,12 @@ let fst = function
 
 let snd = function
 | (_, y) -> y
+
+(** val length : 'a1 list -> nat **)
+
+let rec length = function
+| [] -> O
+| _ :: l' -> S (length l')
 
 (** val app : 'a1 list -> 'a1 list -> 'a1 list **)
 
@@ -26,3 +36,10 @@ type comparison =
 | Eq
 | Lt
 | Gt
+
+(** val coq_CompOpp : comparison -> comparison **)
+
+let coq_CompOpp = function
+| Eq -> Eq
+| Lt -> Gt
+| Gt -> Lt
